@@ -114,6 +114,10 @@ class BarrelList(list):
             if rel_idx < len_list:
                 break
             rel_idx -= len_list
+        else:
+            # at or past the end: keep the position relative to the *last*
+            # sublist (its length means "append"), not to a sublist after it
+            rel_idx += len_list
         if rel_idx < 0:
             return None, None
         return list_idx, rel_idx
